@@ -2,14 +2,17 @@
 Spec: GleamGen.tla records at every reference the set of value names visible there (scope stack + module scope
 + unqualified imports).  GEN: completions with the cursor at the end of each reference being typed are compared
 with that set (labels of function/constant/variant/local items; built-in constructors ignored), no duplicate
-labels, and the replace range must be exactly the identifier being typed."""
+labels, and the replace range must be exactly the identifier being typed.  The module accessors offered must be
+exactly VisibleModules (the last path segment of every import, the alias ONLY for `import .. as q`; up to two imports of
+m2 and sub/m2), and after `acc.` exactly the public functions and constructors of the module that accessor stands for
+(sub/m2 exports one function more than m2).  Workspace: two local packages (app -> lib), one in four a single package."""
 from checks import scope_common
 
 
 def run(out, tier, seed):
     scope_common.run_gen_check(out, tier, seed, "C18", [])
     out.cov["exhaustive"] = True
-    out.cov["rule"] = ("same programs as C05; at every reference token (identifier being typed, cursor at its end) the offered value "
+    out.cov["rule"] = ("same programs as C05 (BFS b1 + b1h over all import headers, simulation); at every reference token (identifier being typed, cursor at its end) the offered value "
                        "names must equal the specification's visible set at that point; distinct_nontrivial = programs with shadowing")
     out.assumptions += ["module.-completions and field completions after `value.` are checked by the dot-completion cases (see DESIGN)"]
 
